@@ -30,8 +30,10 @@ def make_case(ctx, i):
         eg = EG.ExecGen(defs, r)
         d = eg.document(r.below(3))
         docs.append({"path": ["ops", "ok%d.graphql" % k], "doc": d, "valid": True, "fault": ""})
-        op = r.choice(G2.OPERATORS)
+        op = G2.OPERATORS[(i * 5 + k) % len(G2.OPERATORS)]          # every fault operator is used, round robin over the models
         fd = G2.inject(d, op, r.below(3), lone, kinds)
+        if fd is None:
+            fd = G2.inject(d, op, 0, lone, kinds)
         if fd is not None:
             docs.append({"path": ["ops", "bad%d.graphql" % k], "doc": fd, "valid": False, "fault": op})
     # root-operation probes: legitimate or not depending on the schema's roots (the two routes must agree either way)
